@@ -38,6 +38,8 @@ type Net struct {
 
 	Auto        bool  // deliver immediately to connected peers
 	AlwaysPeers bool  // Peers() never empty, so that every write is published and recorded
+	peersGate    map[string]chan struct{}
+	peersWaiting map[string]int
 	Pending     []Msg // undelivered, in send order (manual mode)
 	Log         []Msg // everything ever published/sent (after link filtering: only if link up)
 	seq         int
@@ -385,6 +387,18 @@ func sortInts(a []int) {
 func (t *simTopic) Peers(ctx context.Context) ([]peer.ID, error) {
 	n := t.n
 	n.mu.Lock()
+	gate := n.peersGate[t.name]
+	n.mu.Unlock()
+	if gate != nil {
+		n.mu.Lock()
+		n.peersWaiting[t.name]++
+		n.mu.Unlock()
+		select {
+		case <-gate:
+		case <-ctx.Done():
+		}
+	}
+	n.mu.Lock()
 	defer n.mu.Unlock()
 	var out []peer.ID
 	for b := range n.subs[t.name] {
@@ -553,4 +567,31 @@ func (n *Net) Fanout(topic string, from int) int {
 		return 1
 	}
 	return k // 0: the store sees no peer on the topic and does not publish at all
+}
+
+// GatePeers makes every Peers() call on `topic` wait until the returned function is called
+// (a slow pubsub: the announcer of a write asks for the topic's peers before it publishes).
+func (n *Net) GatePeers(topic string) (release func()) {
+	ch := make(chan struct{})
+	n.mu.Lock()
+	if n.peersGate == nil {
+		n.peersGate = map[string]chan struct{}{}
+		n.peersWaiting = map[string]int{}
+	}
+	n.peersGate[topic] = ch
+	n.peersWaiting[topic] = 0
+	n.mu.Unlock()
+	return func() {
+		n.mu.Lock()
+		delete(n.peersGate, topic)
+		n.mu.Unlock()
+		close(ch)
+	}
+}
+
+// PeersWaiting tells how many Peers() calls are held at the gate of `topic`.
+func (n *Net) PeersWaiting(topic string) int {
+	n.mu.Lock()
+	defer n.mu.Unlock()
+	return n.peersWaiting[topic]
 }
